@@ -148,7 +148,7 @@ KNOWN_FNS: dict[Callable, sympy.Expr] = {
     np.maximum: sympy.maximum,
     np.minimum: sympy.minimum,
     np.mod: sympy.Mod,
-    np.positive: sympy.Abs,
+    np.positive: lambda x: +x,  # unary plus, not the absolute value
     np.power: sympy.Pow,
     np.sign: sympy.sign,
     np.sin: sympy.sin,
